@@ -509,11 +509,11 @@ Definition untampered (b : bytes) (h : honest) : bool :=
    NTS request - nothing is encrypted and the second half is never used: two keys
    with the same first half produce and verify the same tag.  "The same key" for
    the receiver of a packet whose plaintext is empty (ciphertext = the 16-byte
-   tag alone) therefore means: the same first half. *)
+   tag alone) therefore means, for the real cipher: the same first half (theorem
+   C10_wrong_key).  The ORACLE judges by the property text: "the use of a
+   different key is rejected" - the receiver's key must be the sender's key. *)
 Definition mac_half (k : bytes) : bytes := firstn (length k / 2) k.
-Definition key_accepts (h : honest) (key : bytes) : bool :=
-  bytes_eqb (h_key h) key ||
-  ((length (h_ct h) =? 16)%nat && bytes_eqb (mac_half (h_key h)) (mac_half key)).
+Definition key_accepts (h : honest) (key : bytes) : bool := bytes_eqb (h_key h) key.
 
 (* receiver of direction dir (0 = server, 1 = client) holding key; for a
    client reqid = the unique identifier of its outstanding request *)
